@@ -201,6 +201,16 @@ static void program(Rng& r) {
     size_t a = r.below(alive.size()), b = r.below(alive.size());
     if (a == b) continue;
     size_t ia = alive[a], ib = alive[b];
+    if (r.chance(0.25)) {   // merged with itself (with or without values still pending in the buffer): the stream twice
+      const bool pending = r.coin() && md[ia].n > 0;
+      if (pending) { const int extra = int(r.range(1, 30)); for (int i = 0; i < extra; ++i) { const T v = md[ia].vals[r.below(md[ia].vals.size())]; td[ia]->update(v); md[ia].add(v); } }
+      else if (r.coin()) td[ia]->compress();
+      TD& self = *td[ia];
+      self.merge(self);
+      md[ia].n *= 2;
+      observe(*td[ia], md[ia], r, pending ? "self-merge with pending values" : "self-merge", ks[ia]);
+      if (md[ia].n > 0) count(pending ? "self_merge_with_pending_values" : "self_merge_compressed");
+    }
     td[ia]->merge(*td[ib]); md[ia].merge(md[ib]);
     count("merges");
     if (md[ib].n == 0) count("merge_empty_source");
